@@ -1772,11 +1772,12 @@ func (r *Run) doWaitCancel(i int) *Violation {
 	r.nudge(5 * time.Millisecond)
 	ctx, cancel := context.WithCancel(context.Background())
 	var err error
+	var resp proto.Message
 	done := make(chan struct{})
 	t0 := time.Now()
 	go func() {
 		defer close(done)
-		_, err = r.W.Call(ctx, "Pull", &pubsubpb.PullRequest{Subscription: name, MaxMessages: 10})
+		resp, err = r.W.Call(ctx, "Pull", &pubsubpb.PullRequest{Subscription: name, MaxMessages: 10})
 	}()
 	r.Sim.Settle() // the pull is now blocked in its server-side wait
 	time.Sleep(time.Duration(1+r.T.Intn(20)) * time.Second)
@@ -1796,7 +1797,14 @@ func (r *Run) doWaitCancel(i int) *Violation {
 		return viol("C16", "panic:Pull", "%v", p.Val)
 	}
 	if err == nil {
-		return nil // returned empty on its own; still activity
+		// it returned on its own (something the model only knew as "maybe" was deliverable,
+		// or the server-side wait ended): an ordinary pull
+		recv := toRecv(resp.(*pubsubpb.PullResponse).ReceivedMessages)
+		for _, x := range recv {
+			r.ackPool = append(r.ackPool, x.AckID)
+		}
+		r.ev("   (returned %d messages on its own)", len(recv))
+		return r.M.Pull(ms, 10, recv, t0, t1)
 	}
 	r.M.probe("waiting_pull_cancelled")
 	ms.ActLo, ms.ActHi = t0, t1
